@@ -347,6 +347,28 @@ def check_size_bytes_trait(ctx, rule):
                           "schema %s, size_bytes trait of %s evaluates to %s, the layout gives %s" % (ctx.xml(), key, show(strip_casts_lin(got)), show(want)))
         else:
             chk.ok(rule, "size_bytes:" + key, {"entity": key, "params": names, "polynomial": show(want)})
+        for d in lvl.data:
+            dkey = "::".join(path + [d.name])
+            tr = Traits(ctx, "data_traits", "tag__" + "__".join(path + [d.name]))
+            f = tr.fns.get("size_bytes")
+            if f is None:
+                chk.violation(rule, "size_bytes-missing:" + dkey, ctx.xml(), "no size_bytes trait for data %s" % dkey)
+                continue
+            lt = ctx.m.header_element_type(d.header, "length")
+            ps = f.get("params") or []
+            try:
+                live = [p for p in lib.eng.summarise(f) if not p.aborted]
+                got = strip_casts_lin(lin(live[0].ret))
+            except (AnalysisBroken, IndexError) as e:
+                chk.broke("E4 data size_bytes %s: %s" % (dkey, e))
+                continue
+            want = Lin.const(M.PRIM_SIZE[lt.primitive]) + (sym(ps[0]["name"]) if ps else Lin.const(0))
+            if len(ps) != 1 or rint.clean(ps[0]["t"]) != M.PRIM_CPP[lt.primitive] or got != want:
+                chk.violation(rule, "size_bytes-poly:" + dkey, where(f),
+                              "schema %s, data_traits::size_bytes of %s is (%s) -> %s, expected (%s size) -> %s"
+                              % (ctx.xml(), dkey, [rint.clean(p["t"]) for p in ps], show(got), M.PRIM_CPP[lt.primitive], show(want)))
+            else:
+                chk.ok(rule, "size_bytes:" + dkey, {"entity": dkey, "polynomial": show(want)})
         for g in lvl.groups:
             one(g, path + [g.name], True)
     for msg in ctx.m.messages:
